@@ -46,12 +46,12 @@ LEVELS = {
             "components": {"real": ["pkg/core", "pkg/cafs", "pkg/storage/localfs"], "stub": STUB},
             "assumptions": []},
     "C18": {"level": "exploration", "rule": RULE + "; here a run is one random operation program (<= 60 operations) followed by a scheduled commit and download",
-            "text": "random programs of CreateFile, MkDir, WriteFile, SetInodeAttributes(size), ReadFile (also across EOF, as page-sized kernel reads are), LookUpInode (existing and missing names), Unlink, RmDir (empty and non-empty), Rename (onto a free name, file onto file), GetInodeAttributes + ReadDir, and ForgetInode with the kernel's counting (all references of an unlinked node; of a live node under cache pressure, followed later by a fresh lookup) over 4 names, on a real staging directory; each answer (success / errno, inode, type, size, bytes, directory content) is compared with a reference POSIX tree and no two live entries may share an inode; the mount is then committed into the simulated stores under the scheduler and the bundle downloaded: its files equal the visible tree",
+            "text": "random programs of CreateFile, MkDir, WriteFile, SetInodeAttributes(size), ReadFile (also across EOF, as page-sized kernel reads are), LookUpInode (existing and missing names), Unlink, RmDir (empty and non-empty), Rename (onto a free name, file onto file), GetInodeAttributes + ReadDir, and ForgetInode with the kernel's counting (all references of an unlinked node; of a live node under cache pressure, followed later by a fresh lookup) over 4 names, on a real staging directory; each answer (success / errno, inode, type, size, st_nlink, bytes, directory content) is compared with a reference POSIX tree and no two live entries may share an inode; the mount is then committed into the simulated stores under the scheduler and the bundle downloaded: its files equal the visible tree",
             "note": "only requests a kernel can send are generated (the VFS answers EEXIST / EISDIR / ENOTDIR / same-entry renames itself; directory-over-directory renames are not generated); a fatal Go error or a panic outside the caller's goroutine kills the worker and is reported with its seed",
             "components": {"real": ["pkg/fuse mutable file system + commit", "pkg/core", "pkg/cafs", "afero OsFs staging directory"], "stub": STUB},
             "assumptions": ["one caller (the statement quantifies over programs, not schedules)"]},
     "C17": {"level": "exploration", "rule": RULE,
-            "text": "bundles built by real uploads (deep nesting, 20-60 siblings, empty and multi-leaf files, hostile names) are mounted read-only, streamed and pre-downloaded; 1..4 caller tasks (the FUSE server dispatches each kernel request on its own goroutine) issue random programs of lookup walks, getattr, opendir/readdir with 48..4096-byte buffers resumed at every returned offset, and ReadFile at any offset/length including at and after EOF, while the scheduler interleaves the leaf reads of the streaming cafs (LRU 1-6 buffers, prefetch 0-2); a configuration adds transient blob-read failures (EIO or correct bytes). Oracle: the directory tree implied by the uploaded files. Mode B (runtime detection, not simulation): 4..8 callers with longer programs on the same mounts, scheduler off, real parallelism, -race build: a race report in the file system's request paths is a violation (requests that never reach a store call have no seam for the scheduler to interleave)",
+            "text": "bundles built by real uploads (deep nesting, 20-60 siblings, empty and multi-leaf files, hostile names) are mounted read-only, streamed and pre-downloaded; 1..4 caller tasks (the FUSE server dispatches each kernel request on its own goroutine) issue random programs of lookup walks, getattr, opendir/readdir with 48..4096-byte buffers resumed at every returned offset, and OpenFile + ReadFile at any offset/length including at and after EOF + FlushFile + ReleaseFileHandle (now and then followed by the kernel's ForgetInode and a fresh lookup), while the scheduler interleaves the leaf reads of the streaming cafs (LRU 1-6 buffers, prefetch 0-2); a configuration adds transient blob-read failures (EIO or correct bytes). Oracle: the directory tree implied by the uploaded files. Mode B (runtime detection, not simulation): 4..8 callers with longer programs on the same mounts, scheduler off, real parallelism, -race build: a race report in the file system's request paths is a violation (requests that never reach a store call have no seam for the scheduler to interleave)",
             "note": "the file-system methods are called directly (reflect on the unexported fsInternal field): no kernel FUSE transport; the streamed mount is given the bundle's leaf size up front (DESIGN §6 C17)",
             "components": {"real": ["pkg/fuse read-only file system + bundle_read", "pkg/core publish", "pkg/cafs reader"], "stub": STUB},
             "assumptions": ["hash verification enabled on the mount"]},
@@ -61,12 +61,12 @@ LEVELS = {
             "components": {"real": ["pkg/core diff/update/download/upload", "pkg/storage/localfs", "pkg/cafs"], "stub": STUB + ["simfs over MemMapFs"]},
             "assumptions": []},
     "C16": {"level": "exploration", "rule": RULE,
-            "text": "(a) seeded histories of Put (overwrite / create-if-absent) / Get / GetAt / Has / GetAttr / Delete / Keys / KeysPrefix (every page size, following next, also after abandoning a pagination half-way) over hierarchical keys whose components are prefixes of one another, on MemMapFs and on a real temporary directory, checked step by step against a map model whose listing is exact-prefix, delimiter roll-up, lexicographic, each item once; (b) 2..4 writers creating the same key with create-if-absent through simfs, where every afero call (mkdir, open O_EXCL, write, close) of every writer is a scheduling point and the back-off runs on the simulated clock: exactly one wins and the key holds its bytes",
+            "text": "(a) seeded histories of Put (overwrite / create-if-absent) / Get (Read and the reader's WriteTo) / GetAt / Has / GetAttr / Touch / Delete / Clear / Keys / KeysPrefix (every page size, following next, also after abandoning a pagination half-way) over hierarchical keys whose components are prefixes of one another, on MemMapFs and on a real temporary directory, checked step by step against a map model whose listing is exact-prefix, delimiter roll-up, lexicographic, each item once; (b) 2..4 writers creating the same key with create-if-absent through simfs, where every afero call (mkdir, open O_EXCL, write, close) of every writer is a scheduling point and the back-off runs on the simulated clock: exactly one wins and the key holds its bytes",
             "note": "keys are generated so that no key is a directory prefix of another (a file system cannot hold both); Keys() order is not asserted",
             "components": {"real": ["pkg/storage/localfs", "afero MemMapFs / OsFs (kernel O_EXCL)"], "stub": ["simfs scheduling wrapper", "clock: testing/synctest"]},
             "assumptions": []},
     "C19": {"level": "exploration", "rule": RULE,
-            "text": "1..4 appender clients add entries (empty, multi-line, YAML-looking, >1 KiB payloads) under sampled interleavings of their Touch / GetAttr / Put triplets, with call latencies up to 0.7 s and pauses so that appends fall into different seconds; oracle: tokens are unique KSUIDs, an append that returned in an earlier second than another was invoked has the smaller token, the stored entry holds the payload unchanged, ListTokens from issued and synthetic tokens with max 1..1000 returns exactly the look-back window in token order. Reading entries back through ListEntries is a recorded finding (reproduced by a directed scenario)",
+            "text": "1..4 appender clients add entries (empty, multi-line, YAML-looking, >1 KiB payloads) under sampled interleavings of their Touch / GetAttr / Put triplets, with call latencies up to 0.7 s and pauses so that appends fall into different seconds; oracle: tokens are unique KSUIDs, an append that returned in an earlier second than another was invoked has the smaller token, the stored entry holds the payload unchanged, ListTokens from issued and synthetic tokens with max 1..1000 returns exactly the look-back window in token order; a live reader lists through one log value while the appends are in flight (often repeating the same from/max): each such listing - a single store call - must equal the window as it was at some instant between its invocation and its return. Reading entries back through ListEntries is a recorded finding (reproduced by a directed scenario)",
             "note": "simstore's KeysPrefix honours a start key (the contract pkg/wal is written against); the log is driven as a library (nothing in datamon calls it)",
             "components": {"real": ["pkg/wal", "pkg/model wal"], "stub": STUB},
             "assumptions": ["token generator and log live in two buckets, as in the package's own tests"]},
@@ -81,7 +81,7 @@ LEVELS = {
             "components": {"real": ["pkg/core purge + lock", "pebble KV"], "stub": STUB},
             "assumptions": []},
     "C12": {"level": "exploration", "rule": RULE,
-            "text": "the real diamond implementation driven through sampled interleavings of 1-3 split ids x up to 3 runs each (concurrent second runs, crashes at a chosen write and re-runs), an early committer racing the uploads, a committer crashed before its bundle descriptor and retried, and a canceller racing the commit. Oracles: at most one bundle.yaml per diamond; commits/new splits refused once the diamond is terminal; a done split cannot be rerun; the bundle is exactly the merge (C11 oracle) of the done generation of every split whose split-done landed before the winning commit was invoked (those landing during it may or may not be in). Two recorded findings (two bundles after concurrent commits / after a commit that died past its bundle descriptor is retried) are reproduced by directed scenarios and excluded from the open search",
+            "text": "the real diamond implementation driven through sampled interleavings of 1-3 split ids x up to 3 runs each (concurrent second runs, crashes at a chosen write and re-runs), an early committer racing the uploads, a committer crashed before its bundle descriptor and retried, and a canceller racing the commit. Oracles: at most one bundle.yaml per diamond; a commit that reports success is the one the terminal descriptor records (state done, its bundle); commits/new splits refused once the diamond is terminal; a done split cannot be rerun; the bundle is exactly the merge (C11 oracle) of the done generation of every split whose split-done landed before the winning commit was invoked (those landing during it may or may not be in). Two recorded findings (two bundles after concurrent commits / after a commit that died past its bundle descriptor is retried) are reproduced by directed scenarios and excluded from the open search",
             "note": "decided by simulation of the implementation only; the exhaustive protocol model the quantifier also mentions is model checking, outside this technique family (DESIGN §6 C12)",
             "components": {"real": ["pkg/core diamond/split/commit/cancel/list"], "stub": STUB},
             "assumptions": ["at most one committer alive per diamond in the open search", "no commit retry once a bundle descriptor of the diamond has landed"]},
@@ -101,17 +101,17 @@ LEVELS = {
             "components": {"real": ["pkg/core repo create/delete/rename/delete-files/list/download", "pkg/cafs"], "stub": STUB},
             "assumptions": ["histories of completed operations only (no leftovers)", "bundles with more than one index file (1001 files) only in the thorough tier"]},
     "C08": {"level": "exploration", "rule": RULE,
-            "text": "(a) seeded histories of set / overwrite / delete / get / list / prefix-filtered list over 2-3 repositories with prefix-related names and label names from the documented alphabet plus hostile ones, checked step by step against a map model, with the acceptance rule (an accepted name must resolve and every listing must still work) and the per-event invariant that a label operation writes only its own label object and never the metadata store; (b) 2-3 clients running set/get/delete on one label concurrently under sampled interleavings, the recorded history (event-sequence stamps) checked for linearizability against a register-with-delete model with porcupine",
+            "text": "(a) seeded histories of set (also through prebuilt / reused Label values) / overwrite / delete / get / list (ListLabels and ListLabelsApply) / prefix-filtered list / list of versions (versioned label store: every assignment since the label was created, in order) over 2-3 repositories with prefix-related names and label names from the documented alphabet plus hostile ones, checked step by step against a map model, with the acceptance rule (an accepted name must resolve and every listing must still work) and the per-event invariant that a label operation writes only its own label object and never the metadata store; (b) 2-3 clients running set/get/delete on one label concurrently under sampled interleavings, the recorded history (event-sequence stamps) checked for linearizability against a register-with-delete model with porcupine",
             "note": "porcupine 'unknown' (time-out) is counted, never reported; trusts simstore (optionally with object versioning)",
             "components": {"real": ["pkg/core label set/get/delete/list", "pkg/model label paths"], "stub": STUB + ["bundles are seeded descriptors (labels never read bundle content)"]},
             "assumptions": ["histories of at most 10 steps, 3 clients x 4 operations"]},
     "C07": {"level": "exploration", "rule": RULE,
-            "text": "seeded exploration of metadata populations (1-5 repositories with prefix-related names, 0..3000 bundles incl. leftovers of interrupted uploads, labels, diamonds with 0..150 splits whose generations hold 0..60 index files, abandoned generations) listed through List*/List*Apply with page sizes 1..2048, list concurrency 1..32, short pages and (separately) transient store errors; every listing is compared with the model: each object once, nothing foreign, bundles ascending by id, diamonds and splits by start time",
+            "text": "seeded exploration of metadata populations (1-5 repositories with prefix-related names, 0..3000 bundles incl. leftovers of interrupted uploads, labels, diamonds with 0..150 splits - KSUID ids or user-chosen ids such as split-NNN, diamond-NNN, bundle-files-NNN - whose generations hold 0..60 index files, abandoned generations) listed through List*/List*Apply with page sizes 1..2048, list concurrency 1..32, short pages and (separately) transient store errors; every listing is compared with the model: each object once, nothing foreign, bundles ascending by id, diamonds and splits by start time",
             "note": "objects are seeded with the real yaml.Marshal(model.*) at the real model.GetArchivePath* keys; repos/labels order is not asserted (usage docs state none); trusts simstore's listing contract (lexicographic, exact prefix, token = next key)",
             "components": {"real": ["pkg/core keys/list for repos, bundles, labels, diamonds, splits", "pkg/model paths"], "stub": STUB},
-            "assumptions": ["diamonds/splits are created at least one second apart so that id order and start-time order agree", "3000-bundle populations only in the thorough tier"]},
+            "assumptions": ["diamonds/splits are created at least one second apart and user-chosen split ids are numbered in creation order, so that key order and start-time order agree (the disagreement case is the recorded finding C07/order/key-order-across-pages, reproduced by a directed scenario)", "3000-bundle populations only in the thorough tier"]},
     "C06": {"level": "fault_enumeration", "rule": RULE + "; crash points are store writes of the target operation, each tried with the crash before and after the write lands",
-            "text": "crash-point fault injection: inside histories of 0..3 committed bundles and labels, a target upload / label set / diamond commit is killed at a tape-chosen store write (before or after it lands), optionally next to an unharmed concurrent uploader; a fresh observer then lists, resolves latest, lists labels and downloads every visible bundle, and a fresh client retries. The enumerated scenario walks every write of one small upload x {before, after}. Per-event invariant: nothing under bundles/{repo}/{id}/ is written once its bundle.yaml exists",
+            "text": "crash-point fault injection: inside histories of 0..3 committed bundles and labels, a target upload / label set / diamond commit is killed at a tape-chosen store write (before or after it lands), optionally next to an unharmed concurrent uploader; a fresh observer then lists, resolves latest, lists labels and downloads every visible bundle, and a fresh client retries. The same interruptions are also injected as store errors (the write fails before landing, or lands and reports a failure) with the process staying alive: whatever the operation then reports, a bundle may only be visible if it is complete, a reported success is a committed bundle, and a commit that reports success has recorded the diamond as done. The enumerated scenario walks every write of one small upload x {crash before, crash after, error before, error after landing}. Per-event invariant: nothing under bundles/{repo}/{id}/ is written once its bundle.yaml exists",
             "note": "a crashed client's later calls fail with no effect (DESIGN §2); only what landed in simstore survives; trusts simstore",
             "components": {"real": ["pkg/core upload/list/latest/labels/download/diamond commit", "pkg/cafs", "pkg/storage/localfs"], "stub": STUB},
             "assumptions": ["histories of at most 3 prior bundles", "one crash per run"]},
@@ -132,7 +132,7 @@ LEVELS = {
             "assumptions": ["leaf sizes 64 B..64 KiB in this scenario (C01 covers the large ones)", "torn-write repair is only asserted for stores that report CRC32C (as GCS does)"]},
     "C01": {"level": "exploration", "rule": RULE,
             "components": {"real": ["pkg/cafs writer/reader/hasher/freelists/LRU/prefetch"], "stub": STUB},
-            "text": "seeded exploration of (content length x leaf size x source chunking x flush concurrency x read programs x prefetch/cache settings x interleavings of leaf Gets among concurrent readers and prefetchers); every returned byte compared with the source; separate configuration with transient Get failures where a read may fail but never return other bytes",
+            "text": "seeded exploration of (content length x leaf size x source chunking x flush concurrency x read programs x prefetch/cache settings x interleavings of leaf Gets among concurrent readers and prefetchers); read programs mix sequential Read, ReadAt, WriteTo(plain / io.WriterAt), several ReadAt calls on one reader, and a sequential reader that pauses in mid-stream while ReadAt calls go through the same cafs (shared leaf cache and buffer pool, 1..8 buffers); every returned byte compared with the source; separate configuration with transient Get failures where a read may fail but never return other bytes",
             "note": "trusts simstore as a faithful GCS-contract model and the Go runtime; sampled, not exhaustive",
             "assumptions": ["object store behaves per the GCS contract modelled by simstore", "interleavings are controlled at store-call granularity",
                             "objects <= ~6 leaves; 5 MiB leaves only in the thorough tier"]},
